@@ -14,7 +14,11 @@ def register(PROPS):
                  'month, 27-29 February, 52/53 Mondays of a year, ...) x BYSETPOS lists mixing a positive position that only some periods '
                  '(or none) have with negative ones; (unsync) FREQ=MONTHLY;INTERVAL=n;BYMONTH=... [+BYMONTHDAY|BYDAY] with the DTSTART '
                  'given, not derived, so that DTSTART\'s month need not be listed and INTERVAL (incl. n > 12) is counted from DTSTART\'s '
-                 'month: the members after DTSTART must be the RFC\'s.',
+                 'month: the members after DTSTART must be the RFC\'s; (bigstep) sub-daily FREQs whose single step is longer than a '
+                 'day / a week / a month / a year (HOURLY;INTERVAL=25..8761, MINUTELY;INTERVAL=1441..44641, SECONDLY;INTERVAL=86401, 604801), '
+                 'alone and with one BYDAY / BYMONTH / BYMONTHDAY part, over 400 steps; (mdayedge) FREQ=YEARLY and FREQ=MONTHLY with '
+                 'BYMONTHDAY values at the edge of what a month has (-31, -30, -29, -28, 31, 30, 29 and mixtures, so that a negative '
+                 'day is the 1st of some months only), without BYMONTH, with BYMONTH=2 and with BYMONTH=1,3,4.',
         'note': 'Trusted: harness/ref/rfc5545.h (membership test + scan, shares no code with evrrul.c).  Only synchronised DTSTARTs (except '
                 'the unsync family, where only what follows DTSTART is judged), WKST=MO, '
                 'cases where two BYSETPOS readings differ are skipped and counted.  The rule language is infinite; the claim is the grammar.',
@@ -24,10 +28,17 @@ def register(PROPS):
             'quick': 'BY-part subsets of size <= 2, INTERVAL {1,2}, 8 anchors, terminations {none, COUNT 2, COUNT 65, UNTIL on 4th}; '
                      'setposmix: 13 base rules x 9 BYSETPOS lists x INTERVAL {1,2} x 8 anchors x the same terminations; '
                      'unsync: 7 BYMONTH lists x 6 second parts x INTERVAL {1,2,3,5,7,11,12,13,14,17,18,24,25,30} x 8 given DTSTARTs x '
-                     '{none, UNTIL on 4th}, 40-year window',
+                     '{none, UNTIL on 4th}, 40-year window; '
+                     'bigstep: 15 (FREQ, INTERVAL) steps {HOURLY 25, 49, 167, 168, 169, 200, 240, 745, 8761; MINUTELY 1441, 10081, 10090, 44641; '
+                     'SECONDLY 86401, 604801} x 10 second parts {none, BYDAY=MO,WE,FR | SA,SU | TU, BYMONTH=1,3,5,7,8,10,12 | 2, '
+                     'BYMONTHDAY=1 | 29,30,31 | -1 | 1,-1} x 7 date-time anchors x the same terminations, window 400 steps (not past 2095), '
+                     'first 200 occurrences; '
+                     'mdayedge: {YEARLY, MONTHLY} x {no BYMONTH, BYMONTH=2, BYMONTH=1,3,4} x 12 BYMONTHDAY lists {-31, -30, -29, -28, "-31,-1", '
+                     '"-29,-1", "-30,1", 31, 30, 29, "29,-29", "-31,-30,-29,-28"} x INTERVAL {1,2} x 8 anchors x the same terminations',
             'thorough': 'subsets <= 2 (+ size-3 date-part subsets for YEARLY/MONTHLY), INTERVAL {1,2,3,7}, 18 anchors, terminations '
                         '{none, COUNT 1,2,63,64,65,130, UNTIL on / just before the 4th occurrence}; setposmix: INTERVAL {1,2,3,7}, 18 anchors, '
-                        'all terminations; unsync: 18 given DTSTARTs, {none, UNTIL on / just before the 4th}',
+                        'all terminations; unsync: 18 given DTSTARTs, {none, UNTIL on / just before the 4th}; bigstep: 18 anchors (14 '
+                        'date-time), all terminations; mdayedge: INTERVAL {1,2,3,7}, 18 anchors, all terminations',
         },
         'drivers': [
             D('c01_rrule', ['maxparts=2', 'intervals=1,2', 'anchors=8', 'terms=quick', '--case-timeout', '2'],
@@ -36,6 +47,10 @@ def register(PROPS):
               ['mode=setposmix', 'intervals=1,2,3,7', 'anchors=18', 'terms=full', '--case-timeout', '2'], label='setposmix'),
             D('c01_rrule', ['mode=unsync', 'intervals=1,2,3,5,7,11,12,13,14,17,18,24,25,30', 'anchors=8', 'terms=quick', '--case-timeout', '2'],
               ['mode=unsync', 'intervals=1,2,3,5,7,11,12,13,14,17,18,24,25,30', 'anchors=18', 'terms=full', '--case-timeout', '2'], label='unsync'),
+            D('c01_rrule', ['mode=bigstep', 'anchors=8', 'terms=quick', '--case-timeout', '2'],
+              ['mode=bigstep', 'anchors=18', 'terms=full', '--case-timeout', '2'], label='bigstep'),
+            D('c01_rrule', ['mode=mdayedge', 'intervals=1,2', 'anchors=8', 'terms=quick', '--case-timeout', '2'],
+              ['mode=mdayedge', 'intervals=1,2,3,7', 'anchors=18', 'terms=full', '--case-timeout', '2'], label='mdayedge'),
         ],
         'assumptions': ['DTSTART is a member of its own rule (RFC 3.8.5.3 leaves the other case undefined); in the unsync family a DTSTART '
                         'that is no member may or may not be delivered first, COUNT is not used there, and what follows must be the members '
